@@ -42,7 +42,7 @@ def run(ctx):
         if rr.returncode != 0: extra.append({"prop": "C04", "why": "fault driver ended abnormally", "rc": rr.returncode, "stderr": (rr.stderr or "")[-800:]})
         ftraces.append(out); nfault += sum(1 for _ in open(out))
     ctx.tlc_traces("Trace_C04f", ftraces)
-    for f in glob.glob(os.path.join(ctx.scratch, "asan-fasan*")) + glob.glob(os.path.join(ctx.scratch, "asan-fplain*")): os.remove(f)      # reports of children that died are judged as "died" events, not twice
+    for f in glob.glob(os.path.join(ctx.scratch, "asan-fasan*")) + glob.glob(os.path.join(ctx.scratch, "asan-fplain*")) + glob.glob(os.path.join(ctx.scratch, "ubsan-fasan*")) + glob.glob(os.path.join(ctx.scratch, "ubsan-fplain*")): os.remove(f)      # reports of children that died are judged as "died" events, not twice
     # 3. the exhaustive discrete enumeration of C03 on the sanitized objects, both data configurations
     bB = ctx.build("asan", "B"); exeB = ctx.harness(bB)
     def enum(job):
